@@ -87,6 +87,8 @@ structure WF (s : St) (inp : List Bool) : Prop where
   inv0 : ∀ w, s.inv0 = some w → Holds s inp w (!(inp.getD 0 false))
   zero : ∀ w, s.zero = some w → Holds s inp w false
   one  : ∀ w, s.one = some w → Holds s inp w true
+  /-- straight line: gate `k` drives wire `nIn + k` -/
+  sl   : ∀ k (h : k < s.gates.size), (s.gates[k]).out = s.nIn + k
 
 /-- `s'` extends `s`. -/
 structure Ext (s s' : St) (inp : List Bool) : Prop where
@@ -145,10 +147,16 @@ theorem gate_spec {s : St} {inp : List Bool} (op : Op) {a b : Nat} {va vb : Bool
   have key : ∀ w v, Holds s inp w v → Holds (s.snoc ⟨op, a, b, s.next⟩) inp w v := by
     intro w v h
     exact ⟨by have := h.1; simp; omega, by rw [val_snoc_lt s _ inp hl w h.1, h.2]⟩
-  refine ⟨⟨⟨hl, hwf.pos, ?_, ?_, ?_⟩, ?_, ?_⟩, ?_⟩
+  refine ⟨⟨⟨hl, hwf.pos, ?_, ?_, ?_, ?_⟩, ?_, ?_⟩, ?_⟩
   · intro w hw; exact key _ _ (hwf.inv0 w hw)
   · intro w hw; exact key _ _ (hwf.zero w hw)
   · intro w hw; exact key _ _ (hwf.one w hw)
+  · intro k hk
+    simp only [gate_run, St.snoc, Array.size_push] at hk ⊢
+    rw [Array.getElem_push]
+    split
+    · next h => exact hwf.sl k h
+    · next h => simp only [St.next]; omega
   · simp [gate_run]
   · intro w hw; simp only [gate_run]; exact val_snoc_lt s _ inp hl w hw
   · simp only [gate_run]
@@ -195,7 +203,7 @@ theorem invI0Wire_spec {s : St} {inp : List Bool} (hwf : WF s inp) :
   | none =>
     rw [invI0Wire_none hc]
     obtain ⟨e, h⟩ := invGate_spec hwf (holds_input0 hwf)
-    refine ⟨⟨⟨e.wf.len, e.wf.pos, ?_, e.wf.zero, e.wf.one⟩, e.next, e.val⟩, h⟩
+    refine ⟨⟨⟨e.wf.len, e.wf.pos, ?_, e.wf.zero, e.wf.one, e.wf.sl⟩, e.next, e.val⟩, h⟩
     intro w hw
     simp only [Option.some.injEq] at hw
     subst hw
@@ -216,7 +224,7 @@ theorem zeroWire_spec {s : St} {inp : List Bool} (hwf : WF s inp) :
         cases inp.getD 0 false <;> rfl
       rw [this] at h2; exact h2
     have e := e1.trans e2
-    refine ⟨⟨⟨e.wf.len, e.wf.pos, e.wf.inv0, ?_, e.wf.one⟩, e.next, e.val⟩, h2'⟩
+    refine ⟨⟨⟨e.wf.len, e.wf.pos, e.wf.inv0, ?_, e.wf.one, e.wf.sl⟩, e.next, e.val⟩, h2'⟩
     intro w hw
     simp only [Option.some.injEq] at hw
     subst hw
@@ -237,7 +245,7 @@ theorem oneWire_spec {s : St} {inp : List Bool} (hwf : WF s inp) :
         cases inp.getD 0 false <;> rfl
       rw [this] at h2; exact h2
     have e := e1.trans e2
-    refine ⟨⟨⟨e.wf.len, e.wf.pos, e.wf.inv0, e.wf.zero, ?_⟩, e.next, e.val⟩, h2'⟩
+    refine ⟨⟨⟨e.wf.len, e.wf.pos, e.wf.inv0, e.wf.zero, ?_, e.wf.sl⟩, e.next, e.val⟩, h2'⟩
     intro w hw
     simp only [Option.some.injEq] at hw
     subst hw
